@@ -216,6 +216,46 @@ func (i *hsInst) lists(ev int) (on, once []int, ok bool) {
 	return on, once, true
 }
 
+// --- handlerStore with a sub event: the library's own subscription (a client socket listening to its manager's
+// open / error / close events is registered this way). It is no handler of the application: no Off, no OffAll
+// removes it, and it runs for every occurrence.
+type hsSubInst struct{ hsInst }
+
+var subFn tfn = func() { note(9) }
+
+func newHSSubInst() inst {
+	i := &hsSubInst{hsInst{sio.VerifNewHandlerStore[*tfn]()}}
+	i.s.OnSub(&subFn)
+	return i
+}
+
+func (i *hsSubInst) fire(ev int) []int {
+	all := i.hsInst.fire(ev)
+	var out []int
+	subs := 0
+	for _, h := range all {
+		if h == 9 {
+			subs++
+			continue
+		}
+		out = append(out, h)
+	}
+	if subs != 1 {
+		return append([]int{-9 - subs}, out...) // the model never says this: reported as a wrong set of handlers
+	}
+	return out
+}
+
+// lists: the reference model merges states that differ only in what the library subscribed (it believes that
+// to be invariant), so the subscription is checked after EVERY operation, not only when an occurrence follows.
+func (i *hsSubInst) lists(ev int) (on, once []int, ok bool) {
+	on, once, ok = i.hsInst.lists(ev)
+	if subs := i.s.Subs(); len(subs) != 1 || subs[0] != &subFn {
+		on = append([]int{-9 - len(subs)}, on...)
+	}
+	return
+}
+
 // --- eventHandlerStore at store level: identity is the code pointer
 func evA() { note(0) }
 
@@ -446,6 +486,7 @@ func (i *seInst) fire(ev int) []int {
 func families(tier string) []family {
 	return []family{
 		{"handlerStore", 1, true, false, func() inst { return &hsInst{sio.VerifNewHandlerStore[*tfn]()} }, false},
+		{"handlerStore with a library subscription (sub event)", 1, true, false, newHSSubInst, false},
 		{"eventHandlerStore", 2, true, false, func() inst { return &ehInst{sio.VerifNewEventHandlerStore()} }, true},
 		{"Server.NewNamespace", 1, true, true, func() inst { return &nnInst{srv: sio.NewServer(nil)} }, false},
 		{"Namespace.Event", 2, true, true, func() inst { return &nsInst{sio.NewServer(nil).Of("/x")} }, true},
@@ -524,7 +565,9 @@ var replayHarnessErrs []string
 func names(l []int) string {
 	var s []string
 	for _, x := range l {
-		if x < 0 {
+		if x <= -9 {
+			s = append(s, fmt.Sprintf("<the library's own subscription ran %d times instead of once>", -9-x))
+		} else if x < 0 {
 			s = append(s, "?")
 		} else {
 			s = append(s, string(rune('A'+x)))
